@@ -144,7 +144,7 @@ func (c *gctx) class() *Expr {
 			}
 		}
 	}
-	if c.cfg.BigClasses && c.chance(1, 4) {
+	if c.cfg.BigClasses && c.chance(1, 2) {
 		// many individually listed characters (nothing a range would cover)
 		pool := []rune("abcxyzmnpqrstuvwdefghABC019_")
 		seen := map[rune]bool{}
